@@ -93,15 +93,18 @@ pub struct StageStep {
 pub struct Action {
     pub steps: Vec<StageStep>,
     pub max_step: f64,
+    /// inner_steps of the stage (None: one loop of all steps)
+    pub inner: Option<usize>,
 }
 
 impl Action {
     pub fn json(&self) -> Value {
-        json!({"max_step_size": self.max_step, "steps": self.steps.iter().map(|s| json!({"index": s.index, "q": s.q})).collect::<Vec<_>>()})
+        json!({"max_step_size": self.max_step, "inner_steps": self.inner, "steps": self.steps.iter().map(|s| json!({"index": s.index, "q": s.q})).collect::<Vec<_>>()})
     }
     pub fn from_json(v: &Value) -> Action {
         Action {
             max_step: v["max_step_size"].as_f64().unwrap(),
+            inner: v["inner_steps"].as_u64().map(|x| x as usize),
             steps: v["steps"].as_array().unwrap().iter().map(|s| StageStep { index: s["index"].as_u64().unwrap() as usize, q: s["q"].as_f64().unwrap() }).collect(),
         }
     }
@@ -136,13 +139,14 @@ pub fn run_stage(st: &AnyState, act: &Action, mode: Mode) -> StageResult {
             step += 1;
             words.get(step - 1).map(|w| w.0).unwrap_or(0)
         }
-        Draw::Delta => words.get(step.max(1) - 1).map(|w| w.1).unwrap_or_else(|| unit_word(0.5)),
+        // (a draw beyond the script - a step the stage was not asked for - is an extreme move)
+        Draw::Delta => words.get(step.max(1) - 1).map(|w| w.1).unwrap_or_else(|| unit_word(0.)),
         Draw::Threshold => threshold_word(0.),
         Draw::Other => real,
     })));
     let cfg = Cfg {
         steps: act.steps.len() as u64,
-        inner: act.steps.len() as u64,
+        inner: act.inner.unwrap_or(act.steps.len()) as u64,
         kt_start: match mode {
             Mode::AcceptValid => 1e300,
             Mode::HillClimb => 0.,
@@ -205,28 +209,28 @@ pub fn actions(nbasis: usize) -> Vec<Action> {
     let mut v = vec![];
     let hi = 1. - 1. / 4503599627370496.0;
     for i in 0..nbasis {
-        v.push(Action { steps: vec![StageStep { index: i, q: 0. }], max_step: 1. });
-        v.push(Action { steps: vec![StageStep { index: i, q: 0. }], max_step: 0.1 });
-        v.push(Action { steps: vec![StageStep { index: i, q: hi }], max_step: 0.1 });
-        v.push(Action { steps: vec![StageStep { index: i, q: hi }], max_step: 1. });
+        v.push(Action { steps: vec![StageStep { index: i, q: 0. }], max_step: 1., inner: None });
+        v.push(Action { steps: vec![StageStep { index: i, q: 0. }], max_step: 0.1, inner: None });
+        v.push(Action { steps: vec![StageStep { index: i, q: hi }], max_step: 0.1, inner: None });
+        v.push(Action { steps: vec![StageStep { index: i, q: hi }], max_step: 1., inner: None });
     }
     for i in 0..3.min(nbasis) {
         // two extreme shrinks of a cell parameter inside one stage: reaches its lower bound
-        v.push(Action { steps: vec![StageStep { index: i, q: 0. }, StageStep { index: i, q: 0. }], max_step: 1. });
+        v.push(Action { steps: vec![StageStep { index: i, q: 0. }, StageStep { index: i, q: 0. }], max_step: 1., inner: None });
     }
     for i in 0..2.min(nbasis) {
-        v.push(Action { steps: vec![StageStep { index: i, q: 0. }, StageStep { index: i, q: hi }], max_step: 0.1 });
-        v.push(Action { steps: vec![StageStep { index: i, q: 0.25 }, StageStep { index: i, q: hi }], max_step: 1. });
+        v.push(Action { steps: vec![StageStep { index: i, q: 0. }, StageStep { index: i, q: hi }], max_step: 0.1, inner: None });
+        v.push(Action { steps: vec![StageStep { index: i, q: 0.25 }, StageStep { index: i, q: hi }], max_step: 1., inner: None });
     }
     // moves of several whole ranges (max_step_size 6) on the parameters of the last site and on
     // the cell length: whatever brings such a proposal back must bring it back inside
     for i in nbasis.saturating_sub(3)..nbasis {
-        v.push(Action { steps: vec![StageStep { index: i, q: 0. }], max_step: 6. });
-        v.push(Action { steps: vec![StageStep { index: i, q: hi }], max_step: 6. });
+        v.push(Action { steps: vec![StageStep { index: i, q: 0. }], max_step: 6., inner: None });
+        v.push(Action { steps: vec![StageStep { index: i, q: hi }], max_step: 6., inner: None });
     }
-    v.push(Action { steps: vec![StageStep { index: 0, q: 0.4 }], max_step: 6. });
+    v.push(Action { steps: vec![StageStep { index: 0, q: 0.4 }], max_step: 6., inner: None });
     // a small move of the last parameter followed by a cell shrink
-    v.push(Action { steps: vec![StageStep { index: nbasis - 1, q: 0.7 }, StageStep { index: 0, q: 0.3 }], max_step: 0.1 });
+    v.push(Action { steps: vec![StageStep { index: nbasis - 1, q: 0.7 }, StageStep { index: 0, q: 0.3 }], max_step: 0.1, inner: None });
     v
 }
 
@@ -237,7 +241,8 @@ pub fn drift_actions(nbasis: usize) -> Vec<Action> {
     let mut v = vec![];
     for i in 0..nbasis {
         for &q in [0., hi].iter() {
-            v.push(Action { steps: (0..24).map(|_| StageStep { index: i, q }).collect(), max_step: 0.1 });
+            // (inner_steps 23: the run is one loop of 23 steps, the 24th is a step too many)
+            v.push(Action { steps: (0..24).map(|_| StageStep { index: i, q }).collect(), max_step: 0.1, inner: Some(23) });
         }
     }
     v
